@@ -66,6 +66,13 @@ def run(tier, seed, only=None):
         if kind == "order":
             a, b = mesh[tuple(ob.meta["a"])], mesh[tuple(ob.meta["b"])]
             return not (b > a), "ordering violated: mesh%s = %.12g, mesh%s = %.12g" % (ob.meta["a"], a, ob.meta["b"], b)
+        if kind == "extent":
+            got = mesh[ob.meta["row"], -1, 1] - mesh[ob.meta["row"], 0, 1]
+            return model.differs(got, d["span"], 1e-9), "tip-to-tip extent %.12g, requested span %.12g" % (got, d["span"])
+        if kind == "chord":
+            got = mesh[-1, ob.meta["col"], 0] - mesh[0, ob.meta["col"], 0]
+            return model.differs(got, d["root_chord"], 1e-9), "chord %.12g at spanwise station %d, requested root chord %.12g (chord_cos_spacing %.4g)" % (
+                got, ob.meta["col"], d["root_chord"], d.get("chord_cos_spacing", 0.0))
         if kind in ("gfm_left", "gfm_right"):
             half = np.asarray(gen(dict(d, symmetry=True)), dtype=float)
             arg = half.copy() if kind == "gfm_left" else (np.flip(half, axis=1) * np.array([1.0, -1.0, 1.0])).copy()
@@ -100,10 +107,10 @@ def run(tier, seed, only=None):
         # extents
         for i in range(nx):
             obs.append(oblig.Ob("span extent row %d" % i, lhs=full[i, ny - 1, 1] - full[i, 0, 1], rhs=span, assume=assume,
-                                meta={"family": "tip-to-tip extent equals the requested span", "kind": "x", "dict": dmeta}))
+                                meta={"family": "tip-to-tip extent equals the requested span", "kind": "extent", "row": i, "dict": dmeta}))
         for j in range(ny):
             obs.append(oblig.Ob("root chord col %d" % j, lhs=full[nx - 1, j, 0] - full[0, j, 0], rhs=chord, assume=assume,
-                                meta={"family": "chord equals the requested root chord", "kind": "x", "dict": dmeta}))
+                                meta={"family": "chord equals the requested root chord", "kind": "chord", "col": j, "dict": dmeta}))
         # mirror symmetry about y = 0
         for i in range(nx):
             for j in range(ny):
